@@ -104,15 +104,16 @@ func (n *ParallelNode) Run(ctx context.Context) error {
 	defer func() {
 		close(workerJobs)
 		close(coordinatorJobs)
-		workerWg.Wait()
-		// Keep draining errs while waiting for the coordinator: it reports one
-		// error per failed message and blocks once the channel is full, so
-		// waiting for it first would deadlock when more messages fail than the
-		// channel can hold.
-		coordinatorDone := make(chan struct{})
+		// Keep draining errs while waiting for the workers and the coordinator:
+		// the coordinator reports one error per failed message and blocks once
+		// the channel is full, and a worker that finished a job waits for the
+		// coordinator to collect it, so waiting for either of them first would
+		// deadlock when more messages fail than the channel can hold.
+		allDone := make(chan struct{})
 		go func() {
+			workerWg.Wait()
 			coordinatorWg.Wait()
-			close(coordinatorDone)
+			close(allDone)
 		}()
 		for done := false; !done; {
 			select {
@@ -120,7 +121,7 @@ func (n *ParallelNode) Run(ctx context.Context) error {
 				err = cerrors.LogOrReplace(err, workerErr, func() {
 					n.logger.Warn(ctx).Err(workerErr).Msg("parallel worker node failed")
 				})
-			case <-coordinatorDone:
+			case <-allDone:
 				done = true
 			}
 		}
@@ -148,19 +149,37 @@ func (n *ParallelNode) Run(ctx context.Context) error {
 		}
 
 		// try sending the job to a worker
-		select {
-		case workerJobs <- job:
-			// we submitted the job to a worker, give it to the coordinator as well
-			coordinatorJobs <- job
-		case <-workersDone:
-			// no worker is running anymore, they must have all failed, nack the
-			// message and stop running
-			noWorkerRunningErr := cerrors.New("no worker is running")
-			err = msg.Nack(noWorkerRunningErr, n.ID())
-			if err != nil {
-				return err
+		var failErr error
+	dispatch:
+		for {
+			select {
+			case workerJobs <- job:
+				// we submitted the job to a worker, give it to the coordinator as well
+				coordinatorJobs <- job
+				break dispatch
+			case workerErr := <-errs:
+				// A message failed while all workers are busy. Keep reading the
+				// errors while we wait for a free worker: the coordinator blocks
+				// once errs is full and the workers wait for the coordinator, so
+				// waiting for a worker without reading errs can deadlock. The
+				// message we hold still goes to a worker (it will be nacked by
+				// the coordinator), then we stop like after a failed trigger.
+				failErr = cerrors.LogOrReplace(failErr, workerErr, func() {
+					n.logger.Warn(ctx).Err(workerErr).Msg("parallel worker node failed")
+				})
+			case <-workersDone:
+				// no worker is running anymore, they must have all failed, nack the
+				// message and stop running
+				noWorkerRunningErr := cerrors.New("no worker is running")
+				err = msg.Nack(noWorkerRunningErr, n.ID())
+				if err != nil {
+					return err
+				}
+				return noWorkerRunningErr
 			}
-			return noWorkerRunningErr
+		}
+		if failErr != nil {
+			return failErr
 		}
 	}
 }
